@@ -287,7 +287,10 @@ def run_scenario(sc, base, fast=True, mode='each', real_passes=None, on_test=Non
             o.sched_used = st.sched.pos
             o.stats = stats
     finally:
-        o.cwd_after = os.getcwd()
+        try:
+            o.cwd_after = os.getcwd()
+        except OSError:
+            o.cwd_after = '<a directory that no longer exists>'
         os.chdir(old_cwd)
         tempfile.tempdir = old_tmp
         os.environ['TMPDIR'] = old_tmp or '/tmp'
